@@ -65,6 +65,7 @@ type ExploreOpts struct {
 	LogDir    string
 	Race      bool
 	Deadline  time.Time
+	KnownKey  func(key string) bool // key = kind|label|keys: true if it matches an open known finding
 }
 
 type jobStack struct {
@@ -243,7 +244,10 @@ func Explore(p *Program, fn *ssa.Function, eo *ExploreOpts) *Result {
 					res.Schedules++
 				}
 				nviol := 0
-				for _, n := range res.ViolCount {
+				for k, n := range res.ViolCount {
+					if eo.KnownKey != nil && eo.KnownKey(k) {
+						continue // listed open findings do not end the exploration early
+					}
 					nviol += n
 				}
 				// enough counterexample paths: exploring thousands more of a broken tree adds nothing
